@@ -454,7 +454,7 @@ class Tie:
                 cb, pb, db = kv(b)
                 if pb and pb[0] == "mismatch":
                     raise Fail("call %d (%s): the inner libzstd calls made by the code (%s) are not the ones the model makes" % (i, ca, da["tr"]))
-                for k in ("consumed", "fc", "fd", "nlog", "wst", "stpos", "stidx"):
+                for k in ("consumed", "fc", "fd", "nlog", "wst", "pend", "stpos", "stidx"):
                     if da[k] != db[k]:
                         raise Fail("call %d (%s cap=%s): %s = %s in the code, %s in the model (inner calls %s)" % (i, ca, da["cap"], k, da[k], db[k], da["tr"]))
                 if da["ret"] != norm_ret(db["ret"]):
@@ -1222,6 +1222,7 @@ class Tie:
             add(x20, 0, cf, ["c 10 4096", "e1 2", "e 4096", "c 10 4096"], "pending-then-finished")        # the flush is completed first: always fine
             add(x20, 0, cf, ["c 20 4096", "e1 1"], "pending-then-endStream")                               # endStream finishes the frame itself
             add(x20, 5, cf, ["c 5 0", "c 0 1", "e1 3", "c 5 4096"], "auto-end-pending-then-explicit")      # automatic end at maxFrameSize still flushing
+            add(x20, 0, cf, ["c 10 4096", "e1 0", "c 5 1", "c 5 0", "c 5 4096"], "pending-through-two-small-rooms")  # still pending after the first compressStream
         for cf in (0, 1):      # ZSTD_seekable_endStream called again and again after it returned 0: returns 0, writes nothing
             add(x20, 7, cf, ["c 7 4096", "c 7 4096", "c 7 4096", "s 4096", "s 4096", "s 0", "s 3"], "endStream-after-completion")
             add(x20, 7, cf, ["c 7 4096", "c 7 4096", "c 7 4096", "s 5", "s 0", "s 1", "s 0", "s 4096", "s 1"], "endStream-rooms-then-again")
